@@ -287,4 +287,36 @@ struct BoundsCtl
    }
 };
 double use_bounds_ctl(BoundsCtl& b) { return b.changeLower(0, 1.0) + b.changeUpper(0, 2.0); }
+
+// R08.8: a sign test on a value computed from the raw objective coefficient
+struct ObjLpCtl
+{
+   double c[4];
+   double obj(int j) const { return c[j]; }
+};
+bool raw_objective_sign_test(const ObjLpCtl& lp, int j, double aij)
+{
+   double sObj = lp.obj(j) / aij;
+   return sObj > 0.0;
+}
+
+// S8: a sense ternary that negates a different quantity
+double sense_negates_other(bool MINIMIZE, const double* obj, int j, int k)
+{
+   return MINIMIZE ? obj[k] : -obj[j];
+}
+
+// R19.9: a subtraction operator that adds
+struct MinusCtl
+{
+   double val[4];
+   MinusCtl& operator-=(const MinusCtl& o)
+   {
+      for(int i = 0; i < 4; ++i)
+         val[i] += o.val[i];
+
+      return *this;
+   }
+};
+void use_minus_ctl(MinusCtl& a, const MinusCtl& b) { a -= b; }
 }
